@@ -7,12 +7,19 @@ import H3.Model.Headers
     "parseable" means for `:scheme`, `:authority` and `:path`.
 
     What the text does not state is not demanded: no ordering of received pseudo-header fields,
-    nothing about duplicated pseudo-header fields, no `:scheme`/`:path` presence, no
-    request/response separation of the six defined names (reading R-12 in DESIGN.md §12, C12).
+    nothing about duplicated pseudo-header fields, no `:scheme`/`:path` presence (reading R-12 in
+    DESIGN.md §12, C12).
     Several `Host` fields *are* spoken of — "identical when both are present", "a non-empty
     authority" — see `AuthorityOk` (D-12e, reading R-12b).
-    For trailers no pseudo-header field is defined (RFC 9114 §4.3: "Pseudo-header
-    fields MUST NOT appear in trailer sections"), so every trailer name must be a token. -/
+    "Only defined pseudo-header fields" is read as the RFC uses the word (§4.3: "Pseudo-header
+    fields are only valid in the context in which they are defined.  Pseudo-header fields defined
+    for requests MUST NOT appear in responses; pseudo-header fields defined for responses MUST NOT
+    appear in requests.  Pseudo-header fields MUST NOT appear in trailer sections.  Endpoints MUST
+    treat a request or response that contains undefined or invalid pseudo-header fields as
+    malformed."): defined *for this kind of message* — `DefinedFor` (D-12f).  For requests these are
+    `:method`, `:scheme`, `:authority`, `:path` (§4.3.1) and `:protocol` (RFC 9220 §3 / RFC 8441 §4),
+    for responses `:status` alone (§4.3.2: "For responses, a single ":status" pseudo-header field is
+    defined"), for trailers none, so every trailer name must be a token. -/
 namespace H3.Spec.Headers
 open H3.Headers (Bytes FieldLine Http HeaderMap UriParts nMethod nScheme nAuthority nPath nStatus nProtocol nHost)
 
@@ -53,7 +60,7 @@ def IsPseudo (n : Bytes) : Prop := n.head? = some 0x3a
 instance (n : Bytes) : Decidable (IsPseudo n) := by unfold IsPseudo; infer_instance
 
 /-- the six defined pseudo-header fields (RFC 9114 §4.3.1, §4.3.2; RFC 9220 §3), each with a
-    value its parser accepts. -/
+    value its parser accepts.  (Which of them is defined for which kind of message: `DefinedFor`.) -/
 def PseudoOk (H : Http) (n v : Bytes) : Prop :=
   (n = nMethod ∧ MethodToken v) ∨
   (n = nScheme ∧ (H.parseScheme v).isSome) ∨
@@ -90,11 +97,29 @@ def AuthorityOk (fs : List FieldLine) : Prop :=
   (∀ h ∈ valuesOf nHost fs, (valuesOf nHost fs).head? = some h)
 instance (fs : List FieldLine) : Decidable (AuthorityOk fs) := by unfold AuthorityOk; infer_instance
 
+/-- the pseudo-header fields defined for requests: RFC 9114 §4.3.1 ("The following pseudo-header
+    fields are defined for requests": `:method`, `:scheme`, `:authority`, `:path`) and the
+    `:protocol` field of the extended CONNECT request (RFC 9220 §3, RFC 8441 §4) -/
+def requestPseudoNames : List Bytes := [nMethod, nScheme, nAuthority, nPath, nProtocol]
+
+/-- the pseudo-header fields defined for responses: RFC 9114 §4.3.2 ("For responses, a single
+    ":status" pseudo-header field is defined") -/
+def responsePseudoNames : List Bytes := [nStatus]
+
+/-- "only defined pseudo-header fields": every pseudo-header field of the section is one of those
+    defined for this kind of message (RFC 9114 §4.3: "only valid in the context in which they are
+    defined"; request fields MUST NOT appear in responses, response fields MUST NOT appear in
+    requests; a message with an undefined pseudo-header field is malformed).  D-12f. -/
+def DefinedFor (defined : List Bytes) (fs : List FieldLine) : Prop :=
+  ∀ f ∈ fs, IsPseudo f.1 → f.1 ∈ defined
+instance (d : List Bytes) (fs : List FieldLine) : Decidable (DefinedFor d fs) := by
+  unfold DefinedFor; infer_instance
+
 def WellFormedRequest (H : Http) (fs : List FieldLine) : Prop :=
-  (∀ f ∈ fs, FieldOk H f) ∧ (∃ f ∈ fs, f.1 = nMethod) ∧ AuthorityOk fs
+  (∀ f ∈ fs, FieldOk H f) ∧ DefinedFor requestPseudoNames fs ∧ (∃ f ∈ fs, f.1 = nMethod) ∧ AuthorityOk fs
 
 def WellFormedResponse (H : Http) (fs : List FieldLine) : Prop :=
-  (∀ f ∈ fs, FieldOk H f) ∧ (∃ f ∈ fs, f.1 = nStatus)
+  (∀ f ∈ fs, FieldOk H f) ∧ DefinedFor responsePseudoNames fs ∧ (∃ f ∈ fs, f.1 = nStatus)
 
 def WellFormedTrailers (fs : List FieldLine) : Prop :=
   ∀ f ∈ fs, f.1 ≠ [] ∧ ¬ IsPseudo f.1 ∧ LowerToken f.1 ∧ LegalValue f.2
